@@ -15,7 +15,7 @@ RULE = ('inputs of 13-60 queries (classes noisy/partial/chimeric/indel/sandwich 
         'order, and a completion log; plus the in-process M-serial run. Oracle: every output file byte-identical across '
         'all runs of one input apart from the "# coma" argument echo. Evidence reports worker counts, the number of '
         'distinct completion orders reconstructed from the logs and the spread of queries over worker pids. '
-        'Non-trivial = input for which >= 2 distinct completion orders were observed; distinct by input hash.')
+        'Per input also two side inputs of 2-7 queries (1-4 cut from the reference plus 1-3 unrelated/degenerate molecules) run with -c 1 against -c in {2, n, n+1, 8, 16}, i.e. more workers than queries. Non-trivial = input for which >= 2 distinct completion orders were observed; distinct by input hash.')
 ASSUMPTIONS = ['the hostname / input-path header lines are equal because all runs of one input happen on this machine on the same files',
                'the jitter Extensions only sleep and append to a log; they are dispatched at existing dispatch points']
 MINIMUMS = {'inputs': {'quick': 5, 'thorough': 30}, 'cli-runs': {'quick': 40, 'thorough': 500}, 'jittered-runs': {'quick': 10, 'thorough': 150},
@@ -52,7 +52,7 @@ def norm(files):
     return {suf: text.strip_args_echo(t) for suf, t in files.items()}
 
 
-def judge(case, wd, sh, tier='quick'):
+def judge(case, wd, sh, tier='quick', light=False):
     rng = rng_for('C09sched', case['sched_seed'])
     slim = lambda focus: dict(pipeline.slim_case(case), kind='e2e', sched_seed=case['sched_seed'], focus=focus)
     sh.evaluations += 1
@@ -77,6 +77,11 @@ def judge(case, wd, sh, tier='quick'):
     for k in range(njit):
         runs.append(('jitter', rng.choice([2, 3, 4, 8, 16]), {}, rng.randint(0, 10 ** 6)))
     runs.append(('jitter', 1, {}, rng.randint(0, 10 ** 6)))
+    if light:
+        # side input with fewer queries than workers: only plain CLI runs with worker counts around and above the query count
+        nq = len(case['queries'])
+        runs = [('cli', c, {}, None) for c in sorted({2, nq, nq + 1, 8, 16})]
+        sh.count('few-query-inputs')
 
     def execute(idx_run):
         idx, (how, c, env, jseed) = idx_run
@@ -120,6 +125,9 @@ def judge(case, wd, sh, tier='quick'):
             diffs = [(x[:90], y[:90]) for x, y in zip(a, b) if x != y][:2]
             sh.violation('output-depends-on-workers-or-run', 'file %r differs between "cli -c 1" and "%s": %d vs %d records; first differing lines %s' % (
                 d[0], what, len(a), len(b), diffs), slim({'run': what, 'cpus': c, 'jseed': jseed}))
+    if light:
+        sh.count('few-query-inputs-with-a-query-without-record', int(len(text.record_lines(ref_run.files.get('', ''))) < len(case['queries'])))
+        return
     # M-serial fidelity (the substitution used by the other checks)
     ser = pipeline.run_inprocess(case, wd, tag='c', serial=True)
     if ser.error:
@@ -135,6 +143,19 @@ def judge(case, wd, sh, tier='quick'):
                'records per file': {k: len(text.record_lines(v)) for k, v in ref_run.files.items()}, 'verdict': 'all byte-identical'}, limit=3)
 
 
+def small_case(rng):
+    """1-4 queries cut from the reference plus 1-3 unrelated / degenerate molecules: fewer queries than workers for most -c."""
+    case = gen.pipeline_case(rng, ['noisy', 'partial', 'sandwich'], nq=rng.randint(1, 4), nref=rng.randint(1, 2), param_prob=0.0)
+    qid = max(m[0] for m in case['queries']) + 1
+    for _ in range(rng.randint(1, 3)):
+        kind, length, pos = gen.degenerate_map(rng)
+        case['queries'].append([qid, length, pos])
+        case['qclass'][str(qid)] = 'unrelated-' + kind
+        qid += 1
+    case['sched_seed'] = rng.randint(0, 10 ** 6)
+    return case
+
+
 def run_shard(spec):
     sh = Shard()
     for i in range(spec['cases']):
@@ -142,10 +163,16 @@ def run_shard(spec):
         case = make_case(rng)
         case['gen'] = [spec['seed'], spec['shard'], i]
         judge(case, spec['workdir'], sh, spec.get('tier', 'quick'))
+        for j in range(2):
+            small = small_case(rng_for('C09small', spec['seed'], spec['shard'], i, j))
+            small['gen'] = [spec['seed'], spec['shard'], i, 'small', j]
+            wd2 = os.path.join(spec['workdir'], 'small%d_%d' % (i, j))
+            os.makedirs(wd2, exist_ok=True)
+            judge(small, wd2, sh, spec.get('tier', 'quick'), light=True)
     return sh
 
 
 def replay(case):
     sh = Shard()
-    judge(case, case['workdir'], sh)
+    judge(case, case['workdir'], sh, light=len(case['queries']) <= 7)
     return [{'key': v['key'], 'what': v['what']} for v in sh.violations]
